@@ -75,3 +75,116 @@ tx_harness! {
         core::mem::forget(v);
     }
 }
+
+// ---- C11 (struct layer): Tx -> CsvTx -> Tx is the identity ----------------
+fn curr(usd_: bool, rate: i64) -> CurrencyAndExchangeRate {
+    if usd_ { usd(rate) } else { cad() }
+}
+fn roundtrip(t: &Tx) -> Result<Tx, String> {
+    Tx::try_from(t.to_csvtx())
+}
+
+tx_harness! {
+    #[kani::unwind(5)]
+    fn c11_roundtrip_buy_sell() {
+        let is_sell = ks::any_bool();
+        let n = any_in(1, 60000); let p = any_in(0, 60000); let c = any_in(0, 60000);
+        let u = ks::any_bool(); let r = any_in(1, 60000);
+        let sep = ks::any_bool(); let su = ks::any_bool(); let sr = any_in(1, 60000);
+        let has_sfl = ks::any_bool(); let sflv = any_in(0, 60000); let force = ks::any_bool();
+        let ccr = if sep { Some(curr(su, sr)) } else { None };
+        let specs = if is_sell {
+            let s = if has_sfl { Some(SFLInput { superficial_loss: lez(-sflv, 2), force }) } else { None };
+            sell(pos(n, 3), gez(p, 4), gez(c, 2), curr(u, r), ccr, s)
+        } else {
+            buy(pos(n, 3), gez(p, 4), gez(c, 2), curr(u, r), ccr)
+        };
+        let mut t = tx(aff(if ks::any_bool() { 1 } else { 0 }), date(any_in(1, 366)), any_in(0, 60000) as u32, specs);
+        t.trade_date = date(any_in(1, 366));
+        let c = t.to_csvtx();
+        // the rate column is omitted exactly for CAD; commission currency kept when separate
+        assert!(c.tx_curr_to_local_exchange_rate.is_none() == !u);
+        assert!(c.commission_currency.is_some() == sep);
+        assert!(c.commission_curr_to_local_exchange_rate.is_some() == (sep && su));
+        assert!(c.specified_superficial_loss.is_some() == (is_sell && has_sfl));
+        let back = Tx::try_from(c);
+        vcover!("round trip done");
+        match back {
+            Ok(b) => { assert!(b == t); core::mem::forget(b); }
+            Err(_) => assert!(false, "valid transaction rejected on re-read"),
+        }
+        core::mem::forget(t);
+    }
+}
+
+tx_harness! {
+    #[kani::unwind(12)]
+    fn c11_roundtrip_roc_sfla_split() {
+        let which = any_in(0, 2);
+        let a = any_in(0, 60000); let n = any_in(1, 60000);
+        let u = ks::any_bool(); let r = any_in(1, 60000);
+        let post = any_in(1, 100); let pre = any_in(1, 100); let int_only = ks::any_bool();
+        let global = ks::any_bool();
+        let (specs, af) = if which == 0 {
+            (roc(gez(a, 4), curr(u, r)), aff(0))
+        } else if which == 1 {
+            (sfla(pos(n, 2), pos(a + 1, 4)), aff(1))
+        } else {
+            (split(pos(post, 1), pos(pre, 0), int_only), if global { Affiliate::global() } else { aff(0) })
+        };
+        let t = tx(af, date(any_in(1, 366)), any_in(0, 60000) as u32, specs);
+        let back = roundtrip(&t);
+        vcover!("round trip done");
+        match back {
+            Ok(b) => { assert!(b == t); core::mem::forget(b); }
+            Err(_) => assert!(false, "valid transaction rejected on re-read"),
+        }
+        core::mem::forget(t);
+    }
+}
+
+// ---- C01: defaults of a sparse row (commission 0, CAD at rate 1, commission
+// currency = transaction currency) ------------------------------------------
+tx_harness! {
+    #[kani::unwind(5)]
+    fn c01_csvtx_defaults() {
+        let n = any_in(1, 60000); let p = any_in(0, 60000);
+        let has_comm = ks::any_bool(); let c = any_in(0, 60000);
+        let has_curr = ks::any_bool(); let u = ks::any_bool(); let r = any_in(1, 60000);
+        let is_sell = ks::any_bool();
+        let mut row = CsvTx::default();
+        row.security = Some(SEC.to_string());
+        row.trade_date = Some(date(10));
+        row.settlement_date = Some(date(12));
+        row.action = Some(if is_sell { TxAction::Sell } else { TxAction::Buy });
+        row.shares = Some(dec(n, 2));
+        row.amount_per_share = Some(dec(p, 2));
+        if has_comm { row.commission = Some(dec(c, 2)); }
+        if has_curr {
+            row.tx_currency = Some(if u { Currency::usd() } else { Currency::cad() });
+            if u { row.tx_curr_to_local_exchange_rate = Some(dec(r, 4)); }
+        }
+        let t = Tx::try_from(row);
+        vcover!("converted");
+        match t {
+            Ok(t) => {
+                let (comm, cr, sep) = match &t.action_specifics {
+                    TxActionSpecifics::Buy(b) => (b.commission, b.tx_currency_and_rate.clone(), b.separate_commission_currency.is_some()),
+                    TxActionSpecifics::Sell(s) => (s.commission, s.tx_currency_and_rate.clone(), s.separate_commission_currency.is_some()),
+                    _ => { assert!(false); unreachable!() }
+                };
+                assert!(*comm == (if has_comm { dec(c, 2) } else { dec(0, 0) }));
+                assert!(!sep);
+                if has_curr && u {
+                    assert!(cr.currency == Currency::usd() && *cr.exchange_rate == dec(r, 4));
+                } else {
+                    assert!(cr.currency == Currency::cad() && *cr.exchange_rate == dec(1, 0));
+                }
+                assert!(t.affiliate == aff(0));
+                assert!(t.memo.is_empty());
+                core::mem::forget(t);
+            }
+            Err(_) => assert!(false, "sparse but valid row rejected"),
+        }
+    }
+}
